@@ -214,6 +214,9 @@ def _install_builtins():
     b.__symx_format__ = sym_format
     b.__symx_join__ = sym_join
     b.__symx_method__ = sym_method
+    import collections as _collections
+
+    b.__symx_defaultdict__ = _dispatch("defaultdict", _collections.defaultdict)
     for name in ("chr", "ord", "print", "bytes", "bytearray", "repr", "hash", "len", "range", "round", "divmod", "sorted", "tuple", "list", "set", "frozenset", "dict", "enumerate", "zip", "iter", "next", "reversed", "id"):
         setattr(b, f"__symx_{name}__", _dispatch(name, getattr(builtins, name)))
 
